@@ -207,6 +207,7 @@ def explore(ctx):
             ctx.violation('read back by a plain YAML parser the dump is {!r}, the projection is {!r}'.format(
                 back, proj)[:400], dict(desc, key='projection:' + repr(v)[:50], text=text[:600]))
     shared_objects(ctx, yaml, yatiml)
+    odd_signatures(ctx, yaml, yatiml)
     answers = ctx.driver(reqs)
     for a, w, d in zip(answers, wants, descs):
         ctx.count('correspondence_cases')
@@ -268,6 +269,43 @@ class Holder:
         self.codes = codes
         self.more = more
 '''
+
+
+def odd_signatures(ctx, yaml, yatiml):
+    """constructors with keyword-only parameters, *args, **kwargs (the `**kwargs` + `_yatiml_extra` recipe of
+    the documentation): the dump holds the positional-or-keyword parameters in declaration order, and
+    dumping does not fail"""
+    from collections import OrderedDict
+
+    class KwOnly:
+        def __init__(self, name: str, age: int, *, strict: bool = False) -> None:
+            self.name, self.age, self.strict = name, age, strict
+
+    class Kwargs:
+        def __init__(self, name: str, age: int = 3, **kwargs: int) -> None:
+            self.name, self.age = name, age
+            self.kwargs_seen = dict(kwargs)
+
+    class StarArgs:
+        def __init__(self, name: str, *rest: int) -> None:
+            self.name = name
+            self.rest = rest
+    dumps = yatiml.dumps_function(KwOnly, Kwargs, StarArgs)
+    for v, want in ((KwOnly('a', 1, strict=True), ['name', 'age']), (Kwargs('b', 2, x=1), ['name', 'age']),
+                    (StarArgs('c', 1, 2), ['name']), ([KwOnly('a', 1), Kwargs('b')], None)):
+        try:
+            data = yaml.safe_load(dumps(v))
+            res = 'ok'
+        except Exception as e:  # noqa
+            data, res = None, type(e).__name__
+        ctx.case(('odd-signature', type(v).__name__), nontrivial=True)
+        ctx.count('odd_signatures')
+        if res != 'ok':
+            ctx.violation('dumping an object of a class with keyword-only / *args / **kwargs parameters raises ' + res,
+                          dict(key='odd-signature:' + type(v).__name__ + ':' + res))
+        elif want is not None and list(data.keys())[:len(want)] != want:
+            ctx.violation('{}: the dump has keys {} but the constructor parameters are {}'.format(
+                type(v).__name__, list(data.keys()), want), dict(key='odd-signature-order:' + type(v).__name__))
 
 
 def shared_objects(ctx, yaml, yatiml):
